@@ -178,11 +178,54 @@ pub fn canon(v: &Value, flags: bool, out: &mut String) {
     }
 }
 
+/// A value in key position: mappings compare without regard to the order of their entries, so the
+/// entries of a mapping inside a key are printed in sorted order of their printed form.
+pub fn canon_key(v: &Value, flags: bool, out: &mut String) {
+    match v {
+        Value::Sequence(l) => {
+            out.push_str(&format!("L{}", l.len()));
+            for x in l {
+                out.push(' ');
+                canon_key(x, flags, out);
+            }
+        }
+        Value::ValueList(l) => {
+            out.push_str(&format!("V{}", l.len()));
+            for x in l {
+                out.push(' ');
+                canon_key(x, flags, out);
+            }
+        }
+        Value::Mapping(m) => {
+            out.push_str(&format!("M{}", m.len()));
+            let mut ents: Vec<String> = vec![];
+            for (k, x) in m {
+                let mut e = String::from(" ");
+                canon_key(k, flags, &mut e);
+                e.push(' ');
+                canon_key(x, flags, &mut e);
+                if flags {
+                    let (c, o) = m.verif_key_flags(k);
+                    e.push(' ');
+                    e.push(if c { 'c' } else { '-' });
+                    e.push(if o { 'o' } else { '-' });
+                }
+                ents.push(e);
+            }
+            ents.sort_by(|a, b| a.as_bytes().cmp(b.as_bytes()));
+            for e in ents {
+                out.push_str(&e);
+            }
+        }
+        _ => canon(v, flags, out),
+    }
+}
+
 pub fn canon_map(m: &Mapping, flags: bool, out: &mut String) {
     out.push_str(&format!("M{}", m.len()));
     for (k, x) in m {
         out.push(' ');
-        canon(k, flags, out);
+        canon_key(k, flags, out);
         out.push(' ');
         canon(x, flags, out);
         if flags {
